@@ -56,6 +56,7 @@ type Exec struct {
 	caseHint    *caseHint
 	knownWidth  map[int]int
 	collectLocs *[]Loc
+	coverDrop   []*Term // generated quantified facts left out of reachability (cover) queries
 	extra       map[*Cell]Val
 }
 
@@ -466,6 +467,7 @@ func (e *Exec) enterLoop(fr *Frame, li *loopInfo, pre *State) *State {
 				}
 			}
 			e.heapSet(st, n, c.Fresh(n+"@loop", e.fixSort(srt)))
+			e.loopFrame(fr, st, pre, n, e.fixSort(srt))
 		}
 		if mod.allocs {
 			e.bumpAlloc(st)
@@ -511,6 +513,31 @@ func (e *Exec) enterLoop(fr *Frame, li *loopInfo, pre *State) *State {
 	st.reach = c.Name(st.reach, fmt.Sprintf("loop%d", li.ordinal))
 	li.headSt = st.clone()
 	return st
+}
+
+// loopFrame: every write inside the loop is checked against the function's modifies clause where it happens, so
+// locations that existed on entry and are outside that clause still hold their pre-loop values at the loop head.
+func (e *Exec) loopFrame(fr *Frame, st, pre *State, arr, srt string) {
+	if !e.frameOn || e.frameOff || e.pure > 0 || fr.spec == nil || fr.spec != e.top || len(e.top.ModPkgs) > 0 || strings.HasPrefix(arr, "G_") {
+		return
+	}
+	is, _ := arrayParts(srt)
+	if is != "Int" {
+		return
+	}
+	c := e.c
+	r := c.BoundVarNamed("lf."+arr, "Int")
+	conds := []*Term{c.Le(r, e.entryTop)}
+	for _, l := range e.frameLocs {
+		if l.arr == arr {
+			conds = append(conds, c.Not(c.Eq(r, l.ref)))
+		}
+	}
+	now := c.Select(e.heapGet(st, arr, srt), r)
+	before := c.Select(e.heapGet(pre, arr, srt), r)
+	q := c.ForallPat([]*Term{r}, c.Implies(c.And(conds...), c.Eq(now, before)), now)
+	e.coverDrop = append(e.coverDrop, q)
+	e.assume(st, q)
 }
 
 func (e *Exec) backEdge(fr *Frame, li *loopInfo, from *ssa.BasicBlock, st *State) {
@@ -768,10 +795,16 @@ func (e *Exec) instr(fr *Frame, st *State, ins ssa.Instruction) {
 			e.fail("extract from non-tuple in %s", fr.fn)
 		}
 		fr.vals[x] = tv.Tup[x.Index]
+		if call, ok := x.Tuple.(*ssa.Call); ok && lastExtractOf(x) {
+			// "after call" clauses may name the call's results: they run once the results are bound
+			e.siteAsserts(fr, st, call.Pos(), 2)
+		}
 	case *ssa.Call:
 		e.siteAsserts(fr, st, x.Pos(), 1)
 		fr.vals[x] = e.call(fr, st, x, &x.Call)
-		e.siteAsserts(fr, st, x.Pos(), 2)
+		if !hasExtract(x) {
+			e.siteAsserts(fr, st, x.Pos(), 2)
+		}
 	case *ssa.Defer:
 		if x.Block() != fr.fn.Blocks[0] && !dominatesReturns(x.Block(), fr.fn) {
 			e.fail("conditional defer in %s", fr.fn)
@@ -788,8 +821,13 @@ func (e *Exec) instr(fr *Frame, st *State, ins ssa.Instruction) {
 		e.note("channel send abstracted (heap havocked)")
 		e.havocAll(st)
 	case *ssa.Select:
-		e.note("select abstracted (heap havocked)")
-		e.havocAll(st)
+		if x.Blocking {
+			e.note("select abstracted (heap havocked)")
+			e.havocAll(st)
+		} else {
+			// a select with a default case is a poll: it does not yield to other goroutines
+			e.note("non-blocking select abstracted (outcome arbitrary, heap kept)")
+		}
 		fr.vals[x] = e.havocVal(st, x.Type(), "select")
 	case *ssa.DebugRef:
 	case *ssa.SliceToArrayPointer:
@@ -841,9 +879,41 @@ func (e *Exec) siteAsserts(fr *Frame, st *State, pos token.Pos, kind int) {
 			}
 			t := e.evalClauseAt(fr, a.Clause, st, nil)
 			fr.oldOverride = nil
+			if a.Assume {
+				e.assumed["assumed at a call site (contract 'assume' clause): "+a.Clause.Label+": "+a.Clause.Text] = true
+				e.assume(st, t)
+				continue
+			}
 			e.oblige(st, "assert", "assert:"+a.Clause.Label, t, pos)
 		}
 	}
+}
+
+// hasExtract: the call's tuple result is taken apart by Extract instructions directly after it.
+func hasExtract(c *ssa.Call) bool {
+	b := c.Block()
+	for i, ins := range b.Instrs {
+		if ins == ssa.Instruction(c) && i+1 < len(b.Instrs) {
+			x, ok := b.Instrs[i+1].(*ssa.Extract)
+			return ok && x.Tuple == ssa.Value(c)
+		}
+	}
+	return false
+}
+
+func lastExtractOf(x *ssa.Extract) bool {
+	b := x.Block()
+	for i, ins := range b.Instrs {
+		if ins == ssa.Instruction(x) {
+			if i+1 < len(b.Instrs) {
+				if y, ok := b.Instrs[i+1].(*ssa.Extract); ok && y.Tuple == x.Tuple {
+					return false
+				}
+			}
+			return true
+		}
+	}
+	return true
 }
 
 func dominatesReturns(b *ssa.BasicBlock, fn *ssa.Function) bool {
